@@ -6,6 +6,7 @@ import (
 	"fmt"
 	"io"
 	"net/http"
+	"net/url"
 	"time"
 
 	connect "github.com/bufbuild/connect-go"
@@ -51,7 +52,7 @@ func isPrefix(got, of []*gen.Msg) (bool, string) {
 }
 
 func c04(run *ev.Run) int {
-	run.SetRule("faults = every cut offset k in [0,len(body)] of every recorded valid response and request body (3 protocols x codecs x 4 kinds x {0,1,3} messages x {ok,error} x gzip on/off) x ending {clean EOF, unexpected EOF, transport error} x HTTP trailers {present, absent}; plus failure of the j-th ResponseWriter.Write for every j, and a client transport failing after j request-body reads; oracle: success only when the terminator arrived, otherwise coded error, delivered is a prefix of sent, no hang/panic; distinct by (body, fault class: position relative to frame boundary, ending, trailers)")
+	run.SetRule("faults = every cut offset k in [0,len(body)] of every recorded valid response and request body (3 protocols x codecs x 4 kinds x {0,1,3} messages x {ok,error} x gzip on/off) x ending {clean EOF, unexpected EOF, transport error} x HTTP trailers {present, absent}; plus failure of the j-th ResponseWriter.Write for every j, and a client transport whose Do fails after j request-body reads with {an opaque error, an error wrapping io.EOF, one wrapping io.ErrUnexpectedEOF}; oracle: success only when the terminator arrived, otherwise coded error, delivered is a prefix of sent, no hang/panic; distinct by (body, fault class: position relative to frame boundary, ending, trailers)")
 	run.Assume("clean-EOF truncation of a unary Connect 200 body is observationally indistinguishable and excluded")
 	spec := corpusSpec{protos: svc.Protocols, codecs: []string{"proto"}, kinds: svc.Kinds, gzips: []bool{false, true},
 		counts: []int{0, 1, 3}, scenarios: []string{"ok", "err"}}
@@ -350,6 +351,7 @@ func c04WriteFaults(run *ev.Run, rec *recorded, key string) {
 type failingTransport struct {
 	reads int
 	chunk int
+	err   error
 }
 
 func (f *failingTransport) Do(req *http.Request) (*http.Response, error) {
@@ -360,6 +362,9 @@ func (f *failingTransport) Do(req *http.Request) (*http.Response, error) {
 		}
 	}
 	_ = req.Body.Close()
+	if f.err != nil {
+		return nil, f.err
+	}
 	return nil, errTransport
 }
 
@@ -368,19 +373,31 @@ func c04ClientTransport(run *ev.Run, rec *recorded, key string) {
 		return
 	}
 	maxReads := len(rec.Ex.ReqBody)/7 + 2
-	for j := 0; j <= maxReads; j++ {
-		ckey := fmt.Sprintf("%s/client-transport/j=%d", key, j)
-		ft := &failingTransport{reads: j, chunk: 7}
+	// what net/http reports when the peer closes the connection before
+	// answering wraps io.EOF ("Post ...: EOF"); such a failure must not be
+	// mistaken for a clean end of the stream
+	doErrs := []struct {
+		name string
+		err  error
+	}{
+		{"transport-error", errTransport},
+		{"eof", &url.Error{Op: "Post", URL: "http://verif.local/x", Err: io.EOF}},
+		{"unexpected-eof", &url.Error{Op: "Post", URL: "http://verif.local/x", Err: io.ErrUnexpectedEOF}},
+	}
+	for jj := 0; jj <= (maxReads+1)*len(doErrs)-1; jj++ {
+		j, de := jj/len(doErrs), doErrs[jj%len(doErrs)]
+		ckey := fmt.Sprintf("%s/client-transport/j=%d/%s", key, j, de.name)
+		ft := &failingTransport{reads: j, chunk: 7, err: de.err}
 		cs := svc.NewClientSet(ft, "http://verif.local", rec.COpts...)
 		var cl *svc.CLog
 		ok, dump := watchdog(30*time.Second, func() { cl = cs.Do(context.Background(), rec.Kind, "ct", nil, rec.Sends) })
-		run.Eval(fmt.Sprintf("%s|client-transport|%d", rec.Name, j))
+		run.Eval(fmt.Sprintf("%s|client-transport|%d|%s", rec.Name, j, de.name))
 		run.Count("faults.client_transport", 1)
 		if !ok {
 			run.Violation(ckey+"/hang", "client call did not return after the transport failed", trunc(dump, 20000))
 			return
 		}
-		detail := map[string]any{"case": rec.Name, "reads_before_failure": j, "outcome": clientOutcome(cl, true), "send_errs": fmt.Sprint(cl.SendErrs)}
+		detail := map[string]any{"case": rec.Name, "reads_before_failure": j, "do_error": de.err.Error(), "outcome": clientOutcome(cl, true), "send_errs": fmt.Sprint(cl.SendErrs)}
 		if cl.Err == nil {
 			run.Violation(ckey+"/success", "client reported success although the transport failed", detail)
 			return
